@@ -438,9 +438,25 @@ def check_optional_chars(idx: Index, rep: Report) -> None:
                 while isinstance(p, ast.Call) and call_attr(p) == "cast":
                     c_out = p
                     p = pm[id(p)]
+                default = None
+                if isinstance(p, ast.BoolOp) and isinstance(p.op, ast.Or) and len(p.values) == 2 and isinstance(p.values[1], ast.Constant) and isinstance(p.values[1].value, str) and any(y is c for y in ast.walk(p.values[0])):
+                    default = p.values[1].value
+                    lookup_expr = p
+                    p = pm[id(p)]
                 user = p
                 off = unparse(c.args[0])
                 inst = f"{f.fq}:at({off})"
+                if default is not None:
+                    m_ = re.fullmatch(r"self\.pos \+ (\d+)", off)
+                    need = int(m_.group(1)) + 1 if m_ else None
+                    facts = text_facts(f.node, c)
+                    bounded = any(p_ and (mm := re.fullmatch(r"self\._is_in_bounds\((\d*)\)", t)) and (int(mm.group(1) or 1) >= (need or 10**9)) for t, p_ in facts)
+                    member = isinstance(user, ast.Compare) and len(user.ops) == 1 and isinstance(user.ops[0], (ast.In, ast.NotIn)) and user.left is lookup_expr and not isinstance(user.comparators[0], (ast.List, ast.Tuple, ast.Set, ast.Dict))
+                    if default == "" and member and not bounded:
+                        r.fail(inst, Finding("C07.R4", f.fq, f"empty-default-member:{off}", f"`{unparse(user)[:70]}`: at end of input the lookup is None and is replaced by '' - and `'' in <str>` is True for every string, so the test succeeds with no character there (e.g. input ending in `0x` is lexed as a hexadecimal literal without digits and int('0x', 16) raises ValueError)", f"{LEXER}:{c.lineno}"))
+                    else:
+                        r.ok(inst, f"{LEXER}:{c.lineno} None replaced by {default!r}" + (" under a bounds guard" if bounded else ""))
+                    continue
                 risky = isinstance(user, ast.Compare) and isinstance(user.ops[0], (ast.In, ast.NotIn)) and user.left is not c and not isinstance(user.comparators[0], (ast.List, ast.Tuple, ast.Set, ast.Dict)) or isinstance(user, ast.Attribute)
                 if isinstance(user, ast.Compare) and isinstance(user.ops[0], (ast.In, ast.NotIn)):
                     # `x in <str>` raises TypeError for None unless the container is a list/tuple/set literal
